@@ -14,7 +14,7 @@ import Proofs.Lemmas.KernelTac
   hand-written model definition (`Altrios.Rs.*`, `Altrios.Tr.*`), as values of `Res` — same outcome, same `err`
   tag, same records.  Hence every theorem of C03 / C07 / C11 / C12 / C14 about `Rs.updateRes`, `Tr.ssRequiredPwr`,
   `Tr.ssIntegrate`, `Tr.ssStep`, `Tr.slRequiredPwr`, `Tr.slStep`, `Tr.fricSetCurMax`, `Tr.scalingFactor`,
-  `Tr.walkCond` is, by rewriting with `f_eq`, a theorem about what the Rust text says now.
+  `Tr.walkCond`, `Tr.walkStuck` is, by rewriting with `f_eq`, a theorem about what the Rust text says now.
 
   What the equalities make visible (differences between the Rust text and the hand model that the proofs bridge):
     * the hand model fuses functions: `Rs.updateRes` is `Strap::update_res` with the four `Basic::calc_res`, `mass()`,
@@ -202,6 +202,14 @@ theorem scalingFactor_eq (c36525 : α) (days : Option α) (annualize : Bool) :
 theorem walkCond_eq (ft1000 offsetEnd : α) (s : Tr.TrainState α) :
     GenTr.walkCond ft1000 offsetEnd s = Tr.walkCond ft1000 offsetEnd s := rfl
 
+/-- the check made after every `self.step()?` in the loop of `SpeedLimitTrainSim::walk_internal` (fix c76dec1): the
+    `ensure!` FAILS (regenerated as `!(c)` of its condition `c = !(…)`) exactly when the model's `walkStuck` holds of the
+    speed of the state BEFORE the step (`let speed_prev = self.state.speed;`) and the state AFTER it -/
+theorem walkStuck_eq (ft1000 offsetEnd : α) (s0 s : Tr.TrainState α) :
+    GenTr.walkStuck ft1000 offsetEnd s0 s = Tr.walkStuck ft1000 offsetEnd s0.r.speed s := by
+  unfold GenTr.walkStuck Tr.walkStuck
+  exact Bool.not_not _
+
 /-! ### the regenerated definitions are not degenerate: concrete runs over `ℚ`
     (a stub emitted for an untranslatable function would always panic) -/
 section Examples
@@ -233,6 +241,17 @@ example : (match GenTr.updateRes (981/100) (1225/1000) ⟨100, 1/1000, 0, 0, ⟨
       ⟨[], [⟨0, 0, 0⟩, ⟨2000, 0, 0⟩], [⟨0, 0, 0⟩, ⟨2000, 0, 0⟩], [], [], ⟨⟨0, 0, 0, 0, 0⟩, 0, 0, 0, 0⟩, false⟩ .fwd with
     | .ok (_, s) => s.r.weightStatic == 9810000 && s.r.resRolling == 9810 && s.r.resBearing == 100 | _ => false)
     = true := by decide +kernel
+
+/-- the regenerated check fires on a train that stood still (speed 0 before and after the step) with target 0 at 768 m
+    of a 1309 m path, and on none of: moving before the step, a non-zero target, inside the 1000 ft window -/
+example : GenTr.walkStuck (1524/5 : Rat) 1309 ⟨{ resQ with speed := 0 }, kinQ⟩
+      ⟨{ resQ with offset := 768, speed := 0 }, { kinQ with speedTarget := 0 }⟩ = true ∧
+    GenTr.walkStuck (1524/5 : Rat) 1309 ⟨{ resQ with speed := 2 }, kinQ⟩
+      ⟨{ resQ with offset := 768, speed := 0 }, { kinQ with speedTarget := 0 }⟩ = false ∧
+    GenTr.walkStuck (1524/5 : Rat) 1309 ⟨{ resQ with speed := 0 }, kinQ⟩
+      ⟨{ resQ with offset := 768, speed := 0 }, { kinQ with speedTarget := 3 }⟩ = false ∧
+    GenTr.walkStuck (1524/5 : Rat) 1309 ⟨{ resQ with speed := 0 }, kinQ⟩
+      ⟨{ resQ with offset := 1100, speed := 0 }, { kinQ with speedTarget := 0 }⟩ = false := by decide +kernel
 
 end Examples
 
